@@ -32,8 +32,9 @@ const (
 	DevStepEarly                 // perform the next scripted step before its default instant
 	DevRestart                   // restart a crashed server at a non-default instant
 	DevRand                      // random timeout extra = max instead of 0
+	DevSelect                    // coarse mode: take another ready case of a select (Go chooses at random)
 	DevAllNet    = DevDrop | DevDropResp | DevReorder | DevDup | DevLate
-	DevAll       = DevAllNet | DevTimer | DevCrash | DevStore | DevStepEarly | DevRestart
+	DevAll       = DevAllNet | DevTimer | DevCrash | DevStore | DevStepEarly | DevRestart | DevSelect
 )
 
 // ---------------------------------------------------------------------------
@@ -194,7 +195,12 @@ type World struct {
 	holdResp      func(m *Msg) bool // scripted fault: withhold matching responses
 	randExtra     map[int]int64     // per node: answer of rand.Int63() (timeout jitter)
 	inj           injState
+	stallNode     int // server whose store write hangs (-1: none)
+	stallAt       int
+	stallUsed     bool
 }
+
+const stallEvents = 120 // a stalled write completes by default after this many environment events
 
 func (w *World) logf(f string, a ...any) {
 	if w.keepTr {
@@ -370,9 +376,20 @@ func (w *World) Answer(node int, op string, mayFail bool) Fault {
 	costs := []int{0, 1, 1, 1}
 	if !mayFail || !n.booted {
 		labels, costs = labels[:3], costs[:3]
+	} else if w.stallNode < 0 && !w.stallUsed && strings.HasPrefix(op, "StoreLogs") && !w.sc.Timed && !w.timedNow {
+		// a slow disk: the write hangs (and with it the thread that issued it - the main loop) while the rest of
+		// the server and the rest of the world go on; it completes normally once the environment releases it
+		labels = append(labels, fmt.Sprintf("n%d %s stall", node, op))
+		costs = append(costs, 1)
 	}
 	k := w.rec.choose(labels, costs)
 	switch k {
+	case 4:
+		w.logf("%s", labels[4])
+		w.stallNode, w.stallAt, w.stallUsed = node, w.events, true
+		inc := n.inc
+		vsched.WaitAlways("store-stall", func() bool { return w.stallNode != node || n.inc != inc || !n.up })
+		return FaultNone
 	case 1:
 		w.logf("%s", labels[1])
 		w.crashMid = true
@@ -740,6 +757,21 @@ func (w *World) envOptions() []envOpt {
 			if st.Name == w.sc.GiveUpTo && w.stepPos < i {
 				w.logf("script stalled at step %s after %d events: skipping to %s", w.sc.Steps[w.stepPos].Name, w.events, st.Name)
 				w.stepPos = i
+			}
+		}
+	}
+	// a stalled store write completes (default) once it has lasted long enough
+	if w.stallNode >= 0 {
+		sn := w.nodes[w.stallNode]
+		if !sn.up {
+			w.stallNode = -1
+		} else {
+			id := w.stallNode
+			o := envOpt{label: fmt.Sprintf("stalled write of n%d completes", id), cost: 1, do: func() { w.stallNode = -1 }}
+			if w.events-w.stallAt >= stallEvents {
+				addDef(o)
+			} else if (w.events-w.stallAt)%10 == 5 {
+				alts = append(alts, o) // an earlier completion is a further deviation (offered every tenth event)
 			}
 		}
 	}
